@@ -524,6 +524,85 @@ def active_disable_stays_down_round():
     return obs
 
 
+def connect_and_close_round(rounds=40):
+    """A peer that connects and goes away at once - normal close, reset, or after the first bytes of a frame - again and again (a
+    port scan, a health check, a peer that crashes while starting).  The PASSIVE endpoint keeps listening and serves the next peer."""
+    import struct
+    import secsgem.common.tcp_connection
+    secsgem.common.tcp_connection.TcpConnection.select_timeout = 0.02
+    port = common.own_port(5)
+    settings = secsgem.hsms.HsmsSettings(address="127.0.0.1", port=port, connect_mode=secsgem.hsms.HsmsConnectMode.PASSIVE, device_id=0)
+    proto = secsgem.hsms.HsmsProtocol(settings)
+    obs = {"rounds": 0, "refused_for_good_at_round": None}
+    select_req = HsmsMessage(HsmsHeader(0x55, 0xFFFF, 0, 0, False, 0, HsmsSType.SELECT_REQ), b"").blocks[0].encode()
+
+    def connect(seconds):
+        deadline = time.monotonic() + seconds
+        while True:
+            try:
+                return socket.create_connection(("127.0.0.1", port), timeout=2)
+            except OSError:
+                if time.monotonic() > deadline:
+                    return None
+                time.sleep(0.005)
+
+    proto.enable()
+    try:
+        for k in range(1, rounds + 1):
+            peer = connect(5.0)
+            if peer is None:
+                obs["refused_for_good_at_round"] = k
+                break
+            obs["rounds"] = k
+            try:
+                if k % 3 == 1:
+                    peer.setsockopt(socket.SOL_SOCKET, socket.SO_LINGER, struct.pack("ii", 1, 0))
+                elif k % 3 == 2:
+                    peer.sendall(select_req[: k % 14])
+            except OSError:
+                pass
+            peer.close()
+        probe = connect(5.0)
+        obs["probe_connected"] = probe is not None
+        if probe is not None:
+            probe.settimeout(5)
+            try:
+                probe.sendall(select_req)
+                rsp = b""
+                while len(rsp) < 14:
+                    chunk = probe.recv(14 - len(rsp))
+                    if not chunk:
+                        break
+                    rsp += chunk
+                obs["probe_answer"] = rsp.hex()
+                obs["probe_selected"] = len(rsp) == 14 and rsp[9] == 2 and rsp[10:14] == select_req[10:14]
+            except OSError as exc:
+                # the probe may have been queued behind a connection that was still ending: once more
+                obs["probe_error"] = repr(exc)
+                probe.close()
+                probe = connect(5.0)
+                obs["probe_selected"] = False
+                if probe is not None:
+                    try:
+                        probe.settimeout(5)
+                        probe.sendall(select_req)
+                        rsp = probe.recv(14)
+                        obs["probe_answer"] = rsp.hex()
+                        obs["probe_selected"] = len(rsp) == 14 and rsp[9] == 2
+                    except OSError as exc2:
+                        obs["probe_error"] = repr(exc2)
+            if probe is not None:
+                probe.close()
+        obs["server_threads_alive"] = len([t for t in threading.enumerate() if "serverThread" in t.name and t.is_alive()])
+    finally:
+        try:
+            common.with_deadline(proto.disable, 12.0)
+            obs["disable_returned"] = True
+        except common.Wedged:
+            obs["disable_returned"] = False
+    return obs
+
+
 def queue_case(rnd, sizes, packet, writes):
     """one direct call of HsmsProtocol._process_send_queue (no thread is running): blocks of the given byte sizes are queued, the
     connection's send_data answers as scripted; returns the Coq literal: packet counts, the answers, how each block ended"""
@@ -773,6 +852,9 @@ def run(tier, replay=None):
     race2_obs = common.guarded(disable_while_connect_succeeds_round, "disable() while the active endpoint's connection attempt succeeds", awedged, 60.0)
     if race2_obs is not None and not (race2_obs["disable_returned"] and race2_obs["not_connected"]):
         report.violation({"kind": "counterexample", "what": "disable() did not return / the endpoint did not end NOT CONNECTED when its connection attempt succeeded while it was being disabled", **race2_obs}, True, tag="disablerace")
+    scan_obs = common.guarded(lambda: connect_and_close_round(30 if tier == "quick" else 150), "a peer that connects and goes away at once, again and again", awedged, 120.0)
+    if scan_obs is not None and not (scan_obs.get("probe_selected") and scan_obs.get("disable_returned") and scan_obs.get("refused_for_good_at_round") is None):
+        report.violation({"kind": "counterexample", "what": "after peers that connected and went away at once the passive endpoint no longer accepts a connection / selects / disable() hangs", **scan_obs}, True, tag="connectclose")
     down_obs = common.guarded(active_disable_stays_down_round, "disable() of a connected active endpoint, then T5 passes", awedged, 60.0)
     if down_obs is not None and down_obs.get("connected") and not (down_obs.get("disable_returned") and down_obs.get("not_connected") and not down_obs.get("connected_again_after_disable")
                                                                    and down_obs.get("state_afterwards") == "NOT_CONNECTED"):
@@ -863,6 +945,7 @@ def run(tier, replay=None):
     cov["disable_while_peer_connects"] = race_obs
     cov["disable_while_connect_succeeds"] = race2_obs
     cov["active_disable_stays_down"] = down_obs
+    cov["connect_and_close"] = scan_obs
     cov["disable_races_peer_close"] = race3_obs
     cov["stale_dispatch_queue"] = sd_obs
     cov["disable_from_callback"] = cb_obs
